@@ -75,6 +75,11 @@ THEOREMS = [
     # the model's == is Python's ==
     "Lena.C13.delivered_wf",
     "Lena.C13.exported_wf",
+    # sentence 1 for a subcontext given at once: a dictionary value is merged (update_recursively), never substituted
+    "Lena.C13.set_dict_merges",
+    "Lena.C13.set_dict_keeps_earlier",
+    "Lena.C13.set_dict_is_dotted_key",
+    "Lena.C13.set_dict_nest",
 ]
 # true by unfolding a definition of the model / reading aids / model-internal glue: audited, not counted
 AUX_THEOREMS = [
@@ -89,6 +94,8 @@ AUX_THEOREMS = [
     "Lena.C13.run_reads_only_consumers",
     "Lena.C13.run_values_independent",
     "Lena.C13.tokAt_origin",
+    "Lena.C13.singleV_nest",
+    "Lena.C13.single_eq_singleV",
 ]
 CASE_TIMEOUT = 20
 TRUSTED = [
@@ -144,8 +151,11 @@ ASSUMPTIONS = [
     "(mutable), nested lists, lists of dictionaries, floats and None — the model sees each of them as an opaque string "
     "leaf with an injective tag (equality of the tags is Python's == on the pool; no bool, which equals an int), and no "
     "formatting field names a key that holds one (str() of it is outside the model, like that of a dictionary).  "
-    "Dictionary-valued SetContext values are not generated (SetContext(k, {..}) merges like several SetContext).  Keys "
-    "are strings, nesting depth <= 3 in generated cases (theorems: any "
+    "DICTIONARY-valued SetContext values (a subcontext given at once: empty, flat, nested, with opaque leaves, under "
+    "dot-less and dotted keys, overlapping what earlier dotted keys set) ARE generated and modelled (`SVal.dictv`, "
+    "`singleV`): SetContext(k, {..}) is a recursive update like any other (theorems set_dict_merges, "
+    "set_dict_keeps_earlier, set_dict_is_dotted_key); keys inside a dictionary constant contain no dot.  Keys "
+    "are strings, nesting depth <= 4 in generated cases (theorems: any "
     "depth).  Rendering a dictionary with str() (a formatting field that names a sub-dictionary) is outside the model: "
     "`Leaf.bad` is a poison leaf, all theorems are statements about the model, and the model is a model of the code only "
     "for programs whose constructed state has `St.noBad` — evaluated by the driver on every case and required to be true; "
@@ -191,23 +201,28 @@ ASSUMPTIONS = [
 ]
 RULE = ("quick: seven directed families (hostile in-place updaters, writing at every level, next to every copy the "
         "statement names; degenerate Splits; ~430 trees with mutable (list-valued) static keys, consumers and a run-time "
-        "element that extends lists in place; ~40 trees delivered two different contexts in turn (element re-use); (~290 trees for run-time aliasing of static context: nested static key, "
+        "element that extends lists in place; ~40 trees delivered two different contexts in turn (element re-use); ~900 trees "
+        "for DICTIONARY-valued SetContext: every ordered pair of 14 setters of one subtree (dotted keys, dot-less keys with "
+        "empty / flat / nested / overlapping dictionaries, scalar, list, None, formatting string), consumers after them, "
+        "flat / nested Sequence / Split branch / earlier nested Sequence; (~290 trees for run-time aliasing of static context: nested static key, "
         "UpdateContextFromStatic/MakeFilename, a later in-place update of the run-time context by a user mutator, a second "
         "UpdateContextFromStatic or MakeFilename, three values; ~100 trees for FillComputeSeq / FillRequestSeq nodes, tuple "
         "branches that Split converts into them, branches given as bare elements, and Splits constructed while the caches "
         "of their branches exist; ~350 trees with static keys below `output` followed by MakeFilename prefix / suffix / "
         "filename methods, values with and without a run-time `output` key); all trees with <= 2 leaves over 10 leaf kinds (SetContext constant / formatting / "
         "nested key, StoreContext, UpdateContextFromStatic, MakeFilename, Write, Cache, plain element, run-time mutator), "
-        "depth <= 2, Sequence and Source tops; 4000 seeded trees with 3 leaves over 7 leaf kinds; 1500 seeded trees with 4 "
+        "depth <= 2, Sequence and Source tops; 3000 seeded trees with 3 leaves over 7 leaf kinds; 1500 seeded trees with 3 "
+        "leaves over 12 leaf kinds (dictionary constants, fields below them); 1000 seeded trees with 4 "
         "leaves over 8 leaf kinds with list values and list-extending run-time elements; 3000 seeded random trees "
         "of depth <= 3 (Sequence / Source / FillComputeSeq / FillRequestSeq / tuple / bare-element branches, 0-3 Split "
         "branches, 6 keys, 7 formatting fields incl. unresolvable ones, MakeFilename with any legal combination of "
         "filename/dirname/fileext/prefix/suffix/overwrite, 12 % of the SetContext values lists / nested lists / floats / None, "
+        "13 % dictionaries, "
         "20 % of the trees re-delivered one or two contexts out of 8, 15 % of the trees with a Cache constructed a second time with "
         "the cache files present) each with two causality variants and a run-time flow out of 7 (1-3 values; none for "
         "trees with fill/compute elements); every element's static state and names are read before and after the run.  "
-        "thorough: all trees with <= 3 leaves over the 7 leaf kinds and <= 2 leaves over all 10, 30 000 seeded 4-leaf "
-        "trees over the 10 kinds, 10 000 over the 8 list kinds, 30 000 random trees.  Non-trivial: some element saw a non-empty context or derived a "
+        "thorough: all trees with <= 3 leaves over the 7 leaf kinds and <= 2 leaves over all 15, 30 000 seeded 4-leaf "
+        "trees over the 10 kinds, 10 000 over the 12 dictionary kinds, 10 000 over the 8 list kinds, 30 000 random trees.  Non-trivial: some element saw a non-empty context or derived a "
         "formatted name.")
 LEVEL_TEXT = ("Lean 4 theorems about a transcribed VALUE model of the multi-pass static-context protocol (bottom-up "
               "construction, _set_context({}) in every constructor, re-propagation by enclosing sequences, skip-while-empty, "
@@ -1360,6 +1375,7 @@ def alphabet(case):
     for node in preorder(case["tree"]):
         if node["k"] in ("set", "mut"):
             acc.update(node["key"].split("."))
+            _ctx_keys(node["val"], acc)      # a dictionary constant: SetContext("data", {"detector": "far"})
         for t in node_templates(node):
             for f in (parse_template(t) or [])[1::2]:
                 acc.update(p for p in f.split(".") if p)
@@ -1531,6 +1547,8 @@ def compare(case, res, replies):
             return f"node #{i}: model spec {sp} vs model protocol {m['nodes'][i]} (seen_is_prefix_fold)"
     if not m.get("no_bad"):
         return "the model's state contains a rendered dictionary (Leaf.bad): the case is outside the model's domain"
+    if not m.get("vals_wf"):
+        return "a dictionary constant of the program is not a dictionary over the case's alphabet (Tree.valsWF)"
     pytok = tokens(tree)
     for pth, cn, tk in zip(paths(tree), m["cones"], m["toks"]):
         py = [[st[0], len(st[1])] if st[0] == "seq" else ["split"] for st in cone(tree, pth)[0]]
@@ -1594,6 +1612,13 @@ CONSTS = [1, 2, "s", "t", 0, -3]
 # constants that are not ints or strings: lists are MUTABLE (whoever shares one with the static context can rewrite it)
 OPAQUE = [["trigger"], [1, [2]], [{"n": 1}], 2.5, None]
 FIELDS = ["a", "b", "c", "a.x", "b.y", "zz", "a.zz", "a.x.y"]
+# DICTIONARY constants: SetContext(key, {...}) gives a subcontext at once.  The update is recursive
+# (update_recursively): the dictionary is merged into what earlier elements put below the key, it replaces only a
+# scalar.  Empty, flat, nested, with opaque leaves; dot-less and dotted keys that address the subtrees of KEYS/FIELDS.
+DICT_SETS = [("a", {}), ("a", {"x": 1}), ("a", {"y": "s"}), ("a", {"x": {"y": 2}}), ("a", {"x": {}, "zz": "t"}),
+             ("a", {"x": {"z": 0, "y": "s"}, "y": ["trigger"]}), ("a", {"zz": 1, "y": None}), ("a", {"x": 2, "y": 2}),
+             ("a.x", {}), ("a.x", {"y": 1}), ("a.x", {"z": "t", "y": 2}), ("b", {"y": 3}), ("b", {}),
+             ("b", {"y": {"w": 1}}), ("c", {"k": 0}), ("b", {"y": "o", "zz": 2.5})]
 
 
 def _tpl(rng):
@@ -1636,6 +1661,9 @@ def rand_leaf(rng, pformat=0.3):
             return {"k": "set", "key": rng.choice(OUT_STATIC_KEYS), "val": rng.choice(["SP_", "_SS", "st", "s"])}
         if rng.random() < 0.12:
             return {"k": "set", "key": rng.choice(KEYS), "val": copy.deepcopy(rng.choice(OPAQUE))}
+        if rng.random() < 0.15:
+            key, val = rng.choice(DICT_SETS)
+            return {"k": "set", "key": key, "val": copy.deepcopy(val)}
         v = _tpl(rng) if rng.random() < pformat else rng.choice(CONSTS)
         return {"k": "set", "key": rng.choice(KEYS), "val": v}
     if r < 0.58:
@@ -1829,7 +1857,9 @@ def _renders_dict(tree, flow=None):
             for i in range(1, len(parts)):
                 dicts.add(".".join(parts[:i]))
             if not (_is_plain(nd["val"])):
-                dicts.add(nd["key"])        # an opaque value (list, float, None): str() of it is not modelled
+                # an opaque value (list, float, None): str() of it is not modelled; a dictionary constant: the
+                # key and every dictionary / opaque value inside it
+                _dict_paths(nd["val"], nd["key"], dicts)
     if flow is not None:
         rt = set()
         for c in list(flow) + SRC_FLOW:
@@ -1937,6 +1967,14 @@ EX_LEAVES_MORE = [
     {"k": "write", "fmt": "o_{{b}}"},
     {"k": "cache", "fmt": "c_{{a}}.pkl"},
     {"k": "mut", "key": "a.y", "val": 7},
+]
+# leaves for dictionary constants (sampled scope, together with EX_LEAVES)
+EX_DICT_LEAVES = [
+    {"k": "set", "key": "a", "val": {"x": 5}},
+    {"k": "set", "key": "a", "val": {}},
+    {"k": "set", "key": "a", "val": {"y": {"z": 1}}},
+    {"k": "set", "key": "c", "val": "{{a.x}}_g"},
+    {"k": "write", "fmt": "o_{{a.x}}"},
 ]
 # leaves for mutable constants (sampled scope)
 MUT_LEAVES = [
@@ -2130,6 +2168,51 @@ def mutable_cases():
     return out
 
 
+SAME_SUBTREE = [("a.x", 1), ("a.y", "s"), ("a", {"x": 2}), ("a", {"y": "t", "zz": 0}), ("a", {}), ("a", 5),
+                ("a.x", {"y": 1}), ("a.x.y", 3), ("a", {"x": {"y": 4, "z": 5}}), ("a", {"x": {}}), ("a.y", [1]),
+                ("a", {"y": None}), ("a.x", {}), ("a", "{{b}}_f")]
+
+
+def dictval_cases():
+    """Directed family for SetContext values that are DICTIONARIES (a subcontext given at once): every ordered pair
+    of setters that address the same subtree — dotted keys with scalars, dot-less and dotted keys with empty / flat /
+    nested / partially overlapping dictionaries, a scalar, a list, None, a formatting string at the same key — then
+    the consumers (StoreContext, UpdateContextFromStatic, Write / Cache / MakeFilename with fields below the key where
+    they resolve to scalars); flat with a StoreContext in between, the second setter in a nested Sequence, in a Split
+    branch next to a branch that sees the first only (the Split exports the intersection), the first in an earlier
+    nested Sequence.  The update of a SetContext is recursive whatever its value: the later element sees the fold."""
+    out = []
+    tprobes = [{"k": "write", "fmt": "o_{{a.x}}_{{a.y}}"}, {"k": "cache", "fmt": "c_{{a.x.y}}.pkl"},
+               {"k": "mkf", "fmt": "{{a.zz}}_{{a.y}}"}, {"k": "write", "fmt": "w_{{a.x.z}}"},
+               {"k": "set", "key": "c", "val": "{{a.x}}"}, {"k": "mkf", "fmt": "m{{a}}"}]
+
+    def mk(kind, cs):
+        return {"k": "seq", "kind": kind, "c": ([{"k": "src"}] if kind == "Source" else []) + copy.deepcopy(cs)}
+    for k1, v1 in SAME_SUBTREE:
+        for k2, v2 in SAME_SUBTREE:
+            F = {"k": "set", "key": k1, "val": v1}
+            S = {"k": "set", "key": k2, "val": v2}
+            head = [{"k": "set", "key": "b", "val": 7}]
+            base = head + [F, S]
+            P = [{"k": "store"}, {"k": "ucfs"}]
+            for tp in tprobes:
+                # a template probe is used where no field of it resolves to a dictionary / list / None
+                if not _renders_dict(mk("Sequence", base + P + [tp])):
+                    P = P + [tp]
+            shapes = [("Sequence", head + [F, {"k": "store"}, S] + P),
+                      ("Source", head + [F, {"k": "ucfs"}, S] + P),
+                      ("Sequence", head + [F, {"k": "seq", "kind": "Sequence", "c": [S] + P}, {"k": "store"}]),
+                      ("Sequence", head + [F, {"k": "split", "c": [{"k": "seq", "kind": "Sequence", "c": [S] + P},
+                                                                  {"k": "seq", "kind": "tuple", "c": [{"k": "store"}]}]},
+                                           {"k": "store"}]),
+                      ("Sequence", [{"k": "seq", "kind": "Sequence", "c": head + [F]}, S] + P)]
+            for kind, cs in shapes:
+                t = mk(kind, cs)
+                if not _renders_dict(t):
+                    out.append({"tree": t, "flow": _flow_for(t, [] if kind == "Source" else FLOWS[1]), "variants": []})
+    return out
+
+
 def reuse_cases():
     """Directed family for element re-use: a constructed tree is placed into an enclosing sequence and then into a
     second one (`_set_context` of the whole tree with two contexts in turn), the contexts giving DIFFERENT values to
@@ -2144,7 +2227,9 @@ def reuse_cases():
                                                                             {"k": "cache", "fmt": "c_{{c}}.pkl"}]},
                                     {"k": "seq", "kind": "tuple", "c": [{"k": "store"}]}]}, {"k": "ucfs"}],
               [{"k": "set", "key": "a.x", "val": 1}, {"k": "mkf", "fmt": None, "prefix": "P{{b}}_", "dirname": "D{{b}}"},
-               {"k": "set", "key": "c", "val": "{{b}}"}, {"k": "store"}]]
+               {"k": "set", "key": "c", "val": "{{b}}"}, {"k": "store"}],
+              [{"k": "set", "key": "zz", "val": {"y": 1}}, {"k": "store"}, {"k": "set", "key": "c", "val": "{{b}}_{{zz.y}}"},
+               {"k": "set", "key": "zz", "val": {"w": {}}}, {"k": "ucfs"}, {"k": "write", "fmt": "o_{{zz.y}}_{{b}}"}]]
     pairs = [[{"a": 5}, {"a": 6, "b": "p"}], [{"a": 6, "b": "p"}, {"a": 7, "b": "o", "c": ["k"]}],
              [{"a": 5}, {"zz": "q"}], [{"a": 7, "b": "o", "c": ["k"]}, {"a": 5}], [{"b": "o"}, {"a": 6, "b": "p"}]]
     for body in bodies:
@@ -2242,15 +2327,18 @@ def gen_cases(ctx):
     yield from degenerate_split_cases()
     yield from mutable_cases()
     yield from reuse_cases()
+    yield from dictval_cases()
     if ctx.tier == "quick":
         yield from exhaustive_cases(2, 2, EX_LEAVES + EX_LEAVES_MORE, source=True)
-        yield from sampled_cases(rng, 3, 2, EX_LEAVES, 4000)
-        yield from sampled_cases(rng, 4, 2, MUT_LEAVES, 1500)
+        yield from sampled_cases(rng, 3, 2, EX_LEAVES, 3000)
+        yield from sampled_cases(rng, 3, 2, EX_LEAVES + EX_DICT_LEAVES, 1500)
+        yield from sampled_cases(rng, 4, 2, MUT_LEAVES, 1000)
         n_rand = 3000
     else:
         yield from exhaustive_cases(3, 2, EX_LEAVES, source=True)
-        yield from exhaustive_cases(2, 2, EX_LEAVES + EX_LEAVES_MORE, source=True)
+        yield from exhaustive_cases(2, 2, EX_LEAVES + EX_LEAVES_MORE + EX_DICT_LEAVES, source=True)
         yield from sampled_cases(rng, 4, 2, EX_LEAVES + EX_LEAVES_MORE, 30000)
+        yield from sampled_cases(rng, 4, 2, EX_LEAVES + EX_DICT_LEAVES, 10000)
         yield from sampled_cases(rng, 4, 2, MUT_LEAVES, 10000)
         n_rand = 30000
     for i in range(n_rand):
@@ -2274,6 +2362,8 @@ def classify(case, res):
         labels.append("flow:%d values" % len(case["flow"]))
     if any(n["k"] == "set" and isinstance(n["val"], str) and "{" in n["val"] for n in nodes):
         labels.append("has:formatting")
+    if any(n["k"] == "set" and isinstance(n["val"], dict) for n in nodes):
+        labels.append("has:dictionary value")
     top = res["nodes"][0].get("get")
     labels.append("top:keyerror" if isinstance(top, dict) and "cls" in top else "top:ok")
     if any(isinstance(r.get("get"), dict) and "cls" in r["get"] for r in res["nodes"][1:]):
@@ -2302,6 +2392,12 @@ def _shrink_tree(t):
                 yield dict(t, c=t["c"][:i] + [s] + t["c"][i + 1:])
     elif t["k"] == "set" and isinstance(t["val"], str) and "{" in t["val"]:
         yield dict(t, val=1)
+    elif t["k"] == "set" and isinstance(t["val"], dict):
+        for k in t["val"]:
+            yield dict(t, val={k2: v for k2, v in t["val"].items() if k2 != k})
+        for k, v in t["val"].items():
+            if isinstance(v, dict):
+                yield dict(t, val=dict(t["val"], **{k: 1}))
     elif t["k"] == "mkf" and any(t.get(k) for k in ("dirname", "fileext", "prefix", "suffix", "overwrite")):
         yield {"k": "mkf", "fmt": t.get("fmt") or "plain"}
 
